@@ -27,11 +27,13 @@ for p in props:
         na.append({'property_id': pid, 'reason': m.get('na_reason', 'check not built yet in this revision (property-based check planned, see DESIGN.md section 6)')})
 man = {
     'version': 1,
-    'setup_cmd': "/venv/bin/python -c 'import hypothesis, jsonschema' || /venv/bin/pip install --no-index --find-links /opt/veriftools/wheels hypothesis jsonschema",
+    'setup_cmd': "(/venv/bin/python -c 'import hypothesis, jsonschema' || /venv/bin/pip install --no-index --find-links /opt/veriftools/wheels hypothesis jsonschema) && (test -d .deps/atheris || /venv/bin/pip install -q --no-index --find-links /opt/veriftools/wheels --target .deps atheris || true)",
     'hooks': {'guard': 'THERMOSTEAM_VERIF', 'enable': 'no hooks are needed: every observation point is a public attribute; checks import /repo (editable install) directly',
               'baseline_off_cmd': 'cd /repo && /venv/bin/python -m pytest -ra -q -p no:cacheprovider --timeout=900 --continue-on-collection-errors',
               'source_commits': [], 'add_only': True},
-    'engines': [{'name': 'hypothesis-chooser', 'path': 'vlib/runner.py', 'serves_properties': [c['property_id'] for c in checks],
+    'engines': [{'name': 'atheris-fuzz', 'path': 'fuzz_check.py', 'serves_properties': ['C01', 'C09', 'C10', 'C17', 'C18'],
+                 'kind_free_text': 'coverage-guided fuzzing (atheris 3.1 / libFuzzer) of the same chooser-based property functions through Hypothesis fuzz_one_input; runs inside the thorough tier (vlib.runner.ATHERIS_PLAN); the thermosteam modules are instrumented; oracle inside the target; crashes are written as ordinary replay files'},
+                {'name': 'hypothesis-chooser', 'path': 'vlib/runner.py', 'serves_properties': [c['property_id'] for c in checks],
                  'kind_free_text': 'Hypothesis st.data()-driven generation through a logging Chooser; 16 forked shards; replay of logged draws without Hypothesis; signature-based known-finding matching'}],
     'checks': checks,
     'not_applicable': na,
